@@ -785,19 +785,20 @@ Section Dom.
   Lemma str_dedup_NoDup l : NoDup (dedup str_eqb l).
   Proof. apply dedup_NoDup. apply str_eqb_eq. Qed.
 
+  (** the targets are the first occurrences of the selector answers, in answer order *)
+  Lemma collect_eq O sp_ pp tau' lim items :
+    collect G O sp_ pp tau' lim items = dedup str_eqb (flat_map (sel_answers G O sp_ tau' lim) items).
+  Proof. reflexivity. Qed.
+
   Lemma collect_NoDup O sp_ pp tau' lim items : ord_ok O -> NoDup (collect G O sp_ pp tau' lim items).
-  Proof.
-    intros [_ Hs]. unfold collect. eapply Permutation_NoDup; [apply Permutation_sym, Hs|]. apply str_dedup_NoDup.
-  Qed.
+  Proof. intros _. rewrite collect_eq. apply str_dedup_NoDup. Qed.
 
   Lemma collect_In O sp_ pp tau' lim items x : ord_ok O ->
     In x (collect G O sp_ pp tau' lim items) <-> exists it, In it items /\ In x (sel_answers G O sp_ tau' lim it).
   Proof.
-    intros [_ Hs]. unfold collect. split.
-    - intros H. apply (Permutation_in _ (Hs _ _)) in H. apply (proj1 (dedup_In str_eqb str_eqb_eq _ _)) in H.
-      apply in_flat_map in H. exact H.
-    - intros H. apply (Permutation_in _ (Permutation_sym (Hs _ _))). apply (proj2 (dedup_In str_eqb str_eqb_eq _ _)).
-      apply in_flat_map. exact H.
+    intros _. rewrite collect_eq. split.
+    - intros H. apply (proj1 (dedup_In str_eqb str_eqb_eq _ _)) in H. apply in_flat_map in H. exact H.
+    - intros H. apply (proj2 (dedup_In str_eqb str_eqb_eq _ _)). apply in_flat_map. exact H.
   Qed.
 
   Lemma firstn_incl {A} n (l : list A) : incl (firstn n l) l.
@@ -979,8 +980,7 @@ Section Dom.
                   end = events_of bs).
     { destruct (class_items (pcls c O pass all_mode classes)) as [|it its] eqn:Eit; [|apply cut_at_err_id; exact Y2].
       assert (ET : ptargets c O pass all_mode classes = []).
-      { unfold ptargets. rewrite Eit. unfold collect. cbn. destruct Ho as [_ Hs].
-        apply Permutation_nil. apply Permutation_sym. apply Hs. }
+      { unfold ptargets. rewrite Eit. reflexivity. }
       subst bs. rewrite ET, yielder_blocks_nil. reflexivity. }
     rewrite Hev, Y2. cbn [negb].
     destruct Hr as [-> | [m ->]].
